@@ -1,5 +1,5 @@
 (* line protocol (strings: 'e' or dot-separated decimal code points):
-   S <B|K> <src> <k1,k2,...|->   -> OK <kind>/<value> ...   | ERR      (B bundled rules, K stock rules; ks = characters
+   S <B|K|Bt|Kt> <src> <k1,k2,...|->   -> OK <kind>/<value> ...   | ERR      (B bundled rules, K stock rules; ks = characters
                                      consumed by each visit of the block/variable state, taken from the real lexer)
    R <src>                       -> OK <data> <name> <value> <rest> | NONE   (stock 3.1 root step)
    L <s> <prefix>                -> OK <text>                                 (do_lineprefix)
@@ -30,8 +30,8 @@ let () =
           | ["S"; which; src; ks] ->
             let q = ref (if ks = "-" then [] else List.map int_of_string (String.split_on_char ',' ks)) in
             let block_var _ _ = match !q with [] -> None | k :: r -> q := r; Some ([], nat_of_int k) in
-            let inner = inner_with block_var in
-            let r = if which = "B" then scan_bundled inner (parse src) else scan_stock inner (parse src) in
+            let inner = if String.length which > 1 && which.[1] = 't' then inner_with_trim block_var else inner_with block_var in
+            let r = if which.[0] = 'B' then scan_bundled inner (parse src) else scan_stock inner (parse src) in
             (match r with
              | None -> "ERR"
              | Some toks -> String.concat " " ("OK" :: List.map (fun (k, v) -> ascii k ^ "/" ^ show v) toks))
